@@ -525,6 +525,18 @@ add("K-cdda_offset_from_str_m2", ["C12"], "metadata::cuesheet::verif_k::k_cdda_o
     functions=["metadata::cuesheet::CDDAOffset::from_str"],
     contract="CDDAOffset::from_str(MM:SS:FF) never panics; Ok iff SS < 60 and FF < 75, and then the offset is ((MM*60+SS)*75+FF)*588 samples", timeout=900)
 
+for h, tier in [("k_block_iterator_icons", "quick"), ("k_block_iterator_all_kinds", "thorough"), ("k_block_iterator_no_streaminfo", "thorough")]:
+    add("K-" + h[2:], ["C11", "C12"], M + h, tier=tier, bound="the first three blocks of a stream; block kinds symbolic (all eight kinds; the quick instance: the three picture kinds after STREAMINFO)",
+        functions=["metadata::BlockIterator::next"],
+        contract="BlockIterator::next: first block must be STREAMINFO else MissingStreaminfo and the end; a second STREAMINFO / SEEKTABLE / VORBIS_COMMENT / 32x32 PNG icon / general file icon is the matching Multiple* error; "
+                 "one icon of each kind is accepted (the two flags are independent); other blocks pass; a parse error is passed on and ends the iteration",
+        stubs=["metadata::BlockIterator::read_block (script of block kinds)"], timeout=1500)
+add("K-cdda_offset_arith_total", ["C12"], "metadata::cuesheet::verif_k::k_cdda_offset_arith_total", tier="quick", domain="full",
+    functions=["metadata::cuesheet::CDDAOffset::from_str"],
+    contract="CDDAOffset::from_str never panics whatever three numbers its fields parse to (all of u64): the sample offset either fits 64 bits or the text is rejected; an accepted offset is a multiple of 588",
+    stubs=["<u64 as FromStr>::from_str (oracle: any u64 or a parse error)"], timeout=900,
+    assumes=["std's decimal parser returns some u64 or an error (its result is replaced by an oracle)"])
+
 add("K-padding_roundtrip", ["C11", "C12"], M + "k_padding_roundtrip", tier="quick", bound="sizes <= 64 bytes; all stream contents and truncations",
     functions=["metadata::Padding::from_reader", "metadata::Padding::to_writer"],
     contract="PADDING: parse(size) consumes exactly size bytes (fails only on a short stream) and yields Padding{size}; serialising writes exactly size zero bytes; bytes() == size", timeout=300)
